@@ -251,35 +251,41 @@ theorem Store.addCached_fresh {s : Store} {r : RR} {now : Nat}
     (h : ((s.bucket (getKey r.name)).getD []).get r = none) :
     s.addCached r now = s.setBucket (getKey r.name)
       ((s.bucket (getKey r.name)).getD [] ++
-        [(r, .cached (now + 1000 * (if r.flush = true then 1 else r.ttl)))]) := by
+        [(r, .cached (now + 1000 * (if r.flush = true then 1 else r.ttl))
+               (now + 1000 * refreshOffsetSecs (if r.flush = true then 1 else r.ttl)))]) := by
   unfold Store.addCached
   simp only [h]
   rw [Bucket.insert_fresh h]
 
 
-theorem foldl_addCached_fresh (rs : List RR) (r : RR) (s : Store) (now : Nat) (kf : Key) (e : Nat)
+theorem foldl_addCached_fresh (rs : List RR) (r : RR) (s : Store) (now : Nat) (kf : Key) (e rf : Nat)
     (hk : ∀ x ∈ r :: rs, getKey x.name = kf)
     (he : ∀ x ∈ r :: rs, now + 1000 * (if x.flush = true then 1 else x.ttl) = e)
+    (hrf : ∀ x ∈ r :: rs,
+      now + 1000 * refreshOffsetSecs (if x.flush = true then 1 else x.ttl) = rf)
     (hp : (r :: rs).Pairwise (fun a c => rrEq a c = false))
     (hb : ∀ x ∈ r :: rs, ∀ y ∈ (s.bucket kf).getD [], rrEq y.1 x = false) :
     (r :: rs).foldl (fun st x => st.addCached x now) s =
-      s.setBucket kf ((s.bucket kf).getD [] ++ (r :: rs).map (fun x => (x, Kind.cached e))) := by
+      s.setBucket kf ((s.bucket kf).getD [] ++ (r :: rs).map (fun x => (x, Kind.cached e rf))) := by
   induction rs generalizing r s with
   | nil =>
     have h1 := hk r (by simp)
     have h2 := he r (by simp)
+    have h3 := hrf r (by simp)
     simp only [List.foldl_cons, List.foldl_nil, List.map_cons, List.map_nil]
-    rw [Store.addCached_fresh, h1, h2]
+    rw [Store.addCached_fresh, h1, h2, h3]
     rw [h1, Bucket.get_eq_none]
     exact hb r (by simp)
   | cons r2 rest ih =>
     have h1 := hk r (by simp)
     have h2 := he r (by simp)
+    have h3 := hrf r (by simp)
     rw [List.foldl_cons, Store.addCached_fresh (by
-      rw [h1, Bucket.get_eq_none]; exact hb r (by simp)), h1, h2]
+      rw [h1, Bucket.get_eq_none]; exact hb r (by simp)), h1, h2, h3]
     rw [List.pairwise_cons] at hp
     rw [ih r2 _ (fun x hx => hk x (List.mem_cons_of_mem _ hx))
-      (fun x hx => he x (List.mem_cons_of_mem _ hx)) hp.2]
+      (fun x hx => he x (List.mem_cons_of_mem _ hx))
+      (fun x hx => hrf x (List.mem_cons_of_mem _ hx)) hp.2]
     · rw [Store.setBucket_setBucket, Store.bucket_setBucket, if_pos rfl]
       simp
     · intro x hx y hy
@@ -417,12 +423,14 @@ theorem getDomain_after_announce {service own : Name} {s0 : Store} (hI : Inv s0)
   obtain ⟨kf, hkf⟩ : ∃ kf, kf = getKey (inst :: service) := ⟨_, rfl⟩
   -- the store after the announcement
   have hs1 : rs.foldl (fun st r => st.addCached r now) s0 =
-      s0.setBucket kf ((s0.bucket kf).getD [] ++ rs.map (fun x => (x, Kind.cached (now + 1000 * ttl)))) := by
+      s0.setBucket kf ((s0.bucket kf).getD [] ++ rs.map (fun x => (x, Kind.cached (now + 1000 * ttl) (now + 1000 * refreshOffsetSecs ttl)))) := by
     cases rs with
     | nil => exact absurd rfl hne
     | cons r rest =>
       apply foldl_addCached_fresh rest r s0 now kf (now + 1000 * ttl)
+        (now + 1000 * refreshOffsetSecs ttl)
       · intro x hx; rw [(hmem x hx).1, hkf]
+      · intro x hx; rw [(hmem x hx).2.2, (hmem x hx).2.1]; simp
       · intro x hx; rw [(hmem x hx).2.2, (hmem x hx).2.1]; simp
       · exact hpw
       · intro x hx y hy
@@ -436,7 +444,7 @@ theorem getDomain_after_announce {service own : Name} {s0 : Store} (hI : Inv s0)
           simp at this
         · rw [h] at hn; exact hown hn
   rw [hs1] at hI1 ⊢
-  obtain ⟨b1, hb1⟩ : ∃ b1, b1 = (s0.bucket kf).getD [] ++ rs.map (fun x => (x, Kind.cached (now + 1000 * ttl))) := ⟨_, rfl⟩
+  obtain ⟨b1, hb1⟩ : ∃ b1, b1 = (s0.bucket kf).getD [] ++ rs.map (fun x => (x, Kind.cached (now + 1000 * ttl) (now + 1000 * refreshOffsetSecs ttl))) := ⟨_, rfl⟩
   rw [← hb1] at hI1 ⊢
   have hmem1 : (kf, b1) ∈ (s0.setBucket kf b1).entries :=
     Store.bucket_mem (by rw [Store.bucket_setBucket, if_pos rfl])
@@ -454,19 +462,19 @@ theorem getDomain_after_announce {service own : Name} {s0 : Store} (hI : Inv s0)
     by_cases hlt : now' < now + 1000 * ttl
     · rw [if_pos hlt]
       have : rs.filter ((fun e : RR × Kind => Filter.cachedOnly.matches e.2 now') ∘
-          (fun x => (x, Kind.cached (now + 1000 * ttl)))) = rs := by
+          (fun x => (x, Kind.cached (now + 1000 * ttl) (now + 1000 * refreshOffsetSecs ttl)))) = rs := by
         rw [List.filter_eq_self]
         intro x _
         simp [Filter.cachedOnly, hlt]
       rw [this, List.map_map]
-      have hid : ((fun x : RR × Kind => x.1) ∘ fun x : RR => (x, Kind.cached (now + 1000 * ttl))) = id := rfl
+      have hid : ((fun x : RR × Kind => x.1) ∘ fun x : RR => (x, Kind.cached (now + 1000 * ttl) (now + 1000 * refreshOffsetSecs ttl))) = id := rfl
       rw [hid, List.map_id]
       cases rs with
       | nil => exact absurd rfl hne
       | cons _ _ => rfl
     · rw [if_neg hlt]
       have : rs.filter ((fun e : RR × Kind => Filter.cachedOnly.matches e.2 now') ∘
-          (fun x => (x, Kind.cached (now + 1000 * ttl)))) = [] := by
+          (fun x => (x, Kind.cached (now + 1000 * ttl) (now + 1000 * refreshOffsetSecs ttl)))) = [] := by
         rw [List.filter_eq_nil_iff]
         intro x _
         simp [Filter.cachedOnly, hlt]
